@@ -1877,7 +1877,10 @@ def r144_probes(ctx, repo):
         if m is None:
             continue        # abstract: the class cannot be instantiated
         methods.append((rel, cls, m))
-        visit(rel, m)
+        # the probing may be delegated to a private method of the class:
+        # judge the method with the delegate's body in place
+        visit(rel, inline_module_helpers(repo, rel, m, methods=True,
+                                         functions=False))
     impure = {k for k, (fn, _) in graph.items() if directly_impure(fn)}
     changed = True
     while changed:
@@ -2011,8 +2014,11 @@ def r144_transient(ctx, repo):
     429 ...) must not mark an HTTP basin as unavailable for good: only the
     permanent reasons may set _available_verified = False"""
     HTTP = "dclab/rtdc_dataset/fmt_http.py"
-    m = repo.func(HTTP, "HTTPBasin.is_available")
-    probe = repo.func("dclab/http_utils.py", "is_url_available")
+    m_src = repo.func(HTTP, "HTTPBasin.is_available")
+    # the decision may be delegated to a private method of the class
+    m = inline_module_helpers(repo, HTTP, m_src, methods=True,
+                              functions=False)
+    probe = ifexp_to_if(repo.func("dclab/http_utils.py", "is_url_available"))
     produced = {const_str(n.value) for n in walk(probe)
                 if isinstance(n, ast.Assign) and any(
                     is_name(t, "reason") for t in n.targets)
@@ -2087,7 +2093,8 @@ def r144_transient(ctx, repo):
            f"False for good ({len(bad)} transient reasons): after a "
            f"temporary server or network problem the features of the "
            f"remote basin stay unavailable for the life of the dataset",
-           node=(falses or [m])[0],
+           node=(falses if m is m_src else [m_src])[0] if (
+               falses or m is not m_src) else m_src,
            key=f"{HTTP}::HTTPBasin.is_available::transient failures are "
            f"re-checked")
 
@@ -3430,4 +3437,45 @@ TWINS = list(TWINS) + [
       '                    self._available_verified = False\n'
       '                else:\n'
       '                    self._available_verified = valid\n')),
+]
+
+# the decision of is_available delegated to a private method of the class
+_HTTP_BLOCK = (
+    "                if not REQUESTS_AVAILABLE:\n"
+    "                    # don't even bother\n"
+    "                    self._available_verified = False\n"
+    "                else:\n"
+    "                    avail, reason = is_url_available(self.location,\n"
+    "                                                     ret_reason=True)\n"
+    "                    if reason in [\"forbidden\", \"not found\"]:\n"
+    "                        # we cannot access the URL in the near future\n"
+    "                        self._available_verified = False\n"
+    "                    elif avail:\n"
+    "                        self._available_verified = True\n")
+
+
+def _http_delegated(slip):
+    def edit(src):
+        assert src.count(_HTTP_BLOCK) == 1
+        assert src.count("    def is_available(self):\n") == 1
+        body = "\n".join(ln[8:] if ln.strip() else ln
+                         for ln in _HTTP_BLOCK.split("\n"))
+        if slip:
+            body = body.replace("        elif avail:\n", "        else:\n")
+        src = src.replace(_HTTP_BLOCK,
+                          "                self._verify_availability()\n")
+        return src.replace(
+            "    def is_available(self):\n",
+            "    def _verify_availability(self):\n" + body
+            + "\n    def is_available(self):\n")
+    return edit
+
+
+TWINS = list(TWINS) + [
+    ("http: probe decision moved to a private method", HTTPF,
+     _http_delegated(False)),
+]
+MUTANTS = list(MUTANTS) + [
+    ("http: delegated decision loses its third case", HTTPF,
+     _http_delegated(True), "R14.4"),
 ]
